@@ -99,13 +99,13 @@ def run(eng: Engine, ck: Check):
 
     # ---- R-C07-SPLIT-AGREES
     mod = repo.module(SHARES)
-    pat = const_value(repo, mod, '_QUERY_CLEAN_PATTERN')
-    if pat is None or not isinstance(pat, ast.Call):
+    qpat = const_value(repo, mod, '_QUERY_CLEAN_PATTERN')
+    if qpat is None or not isinstance(qpat, ast.Call):
         raise AnalysisError('_QUERY_CLEAN_PATTERN vanished')
-    split_cls = class_items(regex_tree(const(pat.args[0]))[0])
+    split_cls = class_items(regex_tree(const(qpat.args[0]))[0])
     want = class_items(regex_tree(r'[\W_]')[0])
     ck.ob('R-C07-SPLIT', SHARES, f'src/aioslsk/{SHARES}', 'index/query terms are split on [\\W_] (everything that is not a letter or digit)', split_cls == want,
-          f'pattern {const(pat.args[0])!r}', construct='split class')
+          f'pattern {const(qpat.args[0])!r}', construct='split class')
     splits = [(f, x) for f in repo.all_funcs() if f.module.rel == SHARES for x in calls_in(f.node) if unparse(x.func) == 're.split']
     ck.floor('R-C07-SPLIT', len(splits), 3)
     for f, x in splits:
@@ -347,14 +347,56 @@ def run(eng: Engine, ck: Check):
     ck.ob('R-C07-SCAN', sf, sf.node, 'a scan skips the sub-trees of nested shared directories (children = _get_child_directories(dir))', ok, '', construct='scan excludes children')
     augs = [(unparse(n.target), type(n.op).__name__, unparse(n.value)) for n in walk_local(sf.node) if isinstance(n, ast.AugAssign)]
     d = sf.params[1]
-    ok = augs == [(f'{d}.items', 'BitOr', 'shared_items'), (f'{d}.items', 'Sub', f'{d}.items ^ shared_items')]
+    # the local that receives the scan result (await loop.run_in_executor(.., partial(scan_directory, ..)))
+    scanned = [unparse(n.targets[0] if isinstance(n, ast.Assign) else n.target) for n in walk_local(sf.node)
+               if isinstance(n, (ast.Assign, ast.AnnAssign)) and n.value is not None and any(call_name(x) == 'run_in_executor' for x in ast.walk(n.value))]
+    sc_ = scanned[0] if len(scanned) == 1 else '?'
+    ok = augs[:1] == [(f'{d}.items', 'BitOr', sc_)] and len(augs) == 2 and augs[1][:2] == (f'{d}.items', 'Sub') and \
+        augs[1][2] in (f'{d}.items ^ {sc_}', f'{sc_} ^ {d}.items', f'{d}.items - {sc_}')
     ck.ob('R-C07-SCAN', sf, sf.node, 'reconciliation: items |= scanned; items -= items ^ scanned (new files appear, vanished and changed files go)', ok, f'{augs}', construct='scan reconciliation')
     sd = eng.func(SHARES, 'scan_directory')
-    src = unparse(sd.node)
-    ok = 'any((child_dir.is_parent_of(abs_dir) for child_dir in children))' in src and 'continue' in src and 'SharedItem(shared_directory, subdir, filename, modified)' in src
-    ck.ob('R-C07-SCAN', sd, sd.node, 'scan_directory skips directories under a child share and builds items that belong to the scanned directory', ok, '', construct='scan_directory')
+    sdp, chp = sd.params[0], sd.params[1]
+    facts = {}
+    walk = [n for n in walk_local(sd.node) if isinstance(n, ast.For) and pat.match(n.iter, pat.compile_pattern(f'os.walk({sdp}.absolute_path)')[0]) is not None
+            and isinstance(n.target, ast.Tuple) and len(n.target.elts) == 3]
+    facts['walks the absolute path of the scanned directory'] = len(walk) == 1
+    if walk:
+        cur = unparse(walk[0].target.elts[0])
+        files = unparse(walk[0].target.elts[2])
+        skips = []
+        for n in walk_local(walk[0]):
+            if isinstance(n, ast.If) and n.body and isinstance(n.body[0], ast.Continue) and parent(n) is walk[0]:
+                m_ = pat.match(expand_aliases(sd, n.test), pat.compile_pattern(f'any($c.is_parent_of($a) for $c in {chp})')[0])
+                if m_ is not None and cur in m_['a'] and 'abspath' in m_['a']:
+                    skips.append(n)
+        facts['a directory below one of the child shares is skipped (absolute path compared with is_parent_of)'] = len(skips) == 1
+        rel = [bd for _, bd in pfind(walk[0], f'$s = os.path.relpath({cur}, {sdp}.absolute_path)')]
+        facts['the sub-directory is the path relative to the scanned directory'] = len(rel) == 1
+        items = [x for x in calls_in(walk[0]) if call_name(x) == 'SharedItem']
+        fl = [n for n in walk_local(walk[0]) if isinstance(n, ast.For) and unparse(n.iter) == files and isinstance(n.target, ast.Name)]
+        facts['one item per file, owned by the scanned directory, with that sub-directory and the file name'] = len(items) == 1 and len(fl) == 1 and len(rel) == 1 and \
+            len(items[0].args) >= 3 and unparse(items[0].args[0]) == sdp and unparse(items[0].args[1]) == rel[0]['s'] and unparse(items[0].args[2]) == fl[0].target.id
+    bad_ = [k_ for k_, v_ in facts.items() if not v_]
+    ck.ob('R-C07-SCAN', sd, sd.node, 'scan_directory skips directories under a child share and builds items that belong to the scanned directory', not bad_,
+          f'not established: {bad_}', construct='scan_directory')
     gcd = eng.func(SHARES, 'SharesManager._get_child_directories')
-    ok = 'directory != shared_directory and directory.is_child_of(shared_directory)' in unparse(gcd.node)
+    def others_related(fn: FuncInfo, rel_method: str) -> bool:
+        """[d for d in self._shared_directories if d != X and d.<rel_method>(X)] with X the parameter"""
+        xp = [p_ for p_ in fn.params if p_ != 'self'][0]
+        for c_ in walk_local(fn.node):
+            if isinstance(c_, (ast.ListComp, ast.GeneratorExp, ast.SetComp)) and len(c_.generators) == 1 and unparse(c_.generators[0].iter) == 'self._shared_directories' \
+                    and isinstance(c_.generators[0].target, ast.Name) and unparse(c_.elt) == c_.generators[0].target.id:
+                v_ = c_.generators[0].target.id
+                atoms = [a_ for i_ in c_.generators[0].ifs for a_, pol_ in split_conj(i_, True) if pol_ is not None]
+                pols = {unparse(a_): pol_ for i_ in c_.generators[0].ifs for a_, pol_ in split_conj(i_, True)}
+                has_rel = any(pat.match(a_, pat.compile_pattern(f'{v_}.{rel_method}({xp})')[0]) is not None and pols[unparse(a_)] for a_ in atoms)
+                not_self = any((pat.match(a_, pat.compile_pattern(f'{v_} == {xp}')[0]) is not None and not pols[unparse(a_)]) or
+                               (pat.match(a_, pat.compile_pattern(f'{v_} != {xp}')[0]) is not None and pols[unparse(a_)]) or
+                               (pat.match(a_, pat.compile_pattern(f'{v_} is {xp}')[0]) is not None and not pols[unparse(a_)]) for a_ in atoms)
+                if has_rel and not_self and len(atoms) == 2:
+                    return True
+        return False
+    ok = others_related(gcd, 'is_child_of')
     ck.ob('R-C07-SCAN', gcd, gcd.node, 'child directories = other shared directories below this one', ok, '', construct='child directories')
     # every consumer of _get_parent_directories takes the INNERMOST parent, consistently with the sort order of that function
     gpd0 = eng.func(SHARES, 'SharesManager._get_parent_directories')
@@ -381,5 +423,5 @@ def run(eng: Engine, ck: Check):
                           construct=f'{f.qualname} innermost parent')
     ck.floor('R-C07-INNERMOST', n_cons, 2)
     gpd = eng.func(SHARES, 'SharesManager._get_parent_directories')
-    ok = 'directory != shared_directory and directory.is_parent_of(shared_directory)' in unparse(gpd.node) and 'len(d.absolute_path)' in unparse(gpd.node)
+    ok = others_related(gpd, 'is_parent_of')
     ck.ob('R-C07-SCAN', gpd, gpd.node, 'parent directories = other shared directories above this one, innermost last', ok, '', construct='parent directories')
